@@ -142,6 +142,7 @@ HARNESSES = [
       strength="B(out<=16,in<=4 bytes; complete in every register, table entry, flag and position)"),
     # ---- K-reset ----
     H("k_inflate_reset_policies", "K-reset", ["C18"], fns=["MinReset::reset", "ZeroReset::reset", "FullReset::reset", "InflateState::reset", "InflateState::reset_as", "DecompressorOxide::init"], cost=40),
+    H("k_reset_format_selection", "K-reset", ["C09", "C13", "C16", "C18"], fns=["FullReset::reset", "InflateState::reset", "ZeroReset::reset", "MinReset::reset (format and scalars)"], cost=40),
     H("k_compressor_reset", "K-reset", ["C18", "C02", "C11", "C14", "C16"], fns=["CompressorOxide::reset", "ParamsOxide::reset", "DictOxide::reset", "HashBuffers::reset", "LZOxide::new", "HuffmanOxide::default"], cost=60,
       note="<[T]>::fill replaced by its std contract model (writes index 0; call count and slice lengths recorded): the window/next/hash fills are observed at index 0 plus (3 calls, total length) and extended to every element by the std contract"),
     # ---- K-lenDist ----
